@@ -391,7 +391,7 @@ def _load_fixture(name, ufolib):
 
 def _apply_extras(font, ex, first=True):
     lib = font.lib
-    names = [g.name for g in font.layers.defaultLayer]
+    names = [g.name for g in L.glyphs_of(font.layers.defaultLayer)]
     if ex["math"]:
         m = ex["math"]
         if m["constants"]:
@@ -439,7 +439,7 @@ def _apply_extras(font, ex, first=True):
     if ex["cats"]:
         lib[L.CATS_KEY] = {n: "base" for n in names[:2]}
     if ex["gdef"]:
-        bases = [g.name for g in font.layers.defaultLayer if not any(a.name.startswith("_") for a in g.anchors)][:3]
+        bases = [g.name for g in L.glyphs_of(font.layers.defaultLayer) if not any(a.name.startswith("_") for a in g.anchors)][:3]
         if bases:
             font.features.text = (font.features.text or "") + "\ntable GDEF {\n  GlyphClassDef [%s], , , ;\n} GDEF;\n" % " ".join(bases)
     for fdict in ex["libfilters"]:
@@ -529,7 +529,7 @@ def _sources(case):
             _apply_extras(f, ex)
         if dsc.get("skipVary") and k > 0 and "public.skipExportGlyphs" in f.lib:
             have = list(f.lib["public.skipExportGlyphs"])
-            more = [g.name for g in f.layers.defaultLayer if g.name not in have and g.name != ".notdef"][:k]
+            more = [g.name for g in L.glyphs_of(f.layers.defaultLayer) if g.name not in have and g.name != ".notdef"][:k]
             f.lib["public.skipExportGlyphs"] = have + more
         fonts.append(f)
     locs = [0, 1000] if nm == 2 else [0, 1000, 500]
